@@ -98,6 +98,9 @@ SPEC.update({
     # its 6-bit two's complement form (-32..-1): both spellings denote the same field
     ("c.lui", "ri"): _s("c.lui", (("rd",), ("simm",)), imm=(-32, 31, 1, "nz")),
 })
+# pseudo-instructions that expand through render() (manual ch. 25): printed text -> architectural effect.
+#   "li": rd = the 32-bit value of imm (signed and unsigned spellings), nothing else changes
+PSEUDO_SPEC = {("li", "ri"): dict(effect="li", imm=(-(1 << 31), (1 << 32) - 1, 1), label=None, base=None, pos=(), fixed={})}
 # spelling differences between ppci's assembler and the manual
 ALIAS = {"c.bneqz": "c.bnez"}
 
@@ -131,11 +134,11 @@ def kinds_of(cls):
     return ks
 
 
-def discover():
+def discover(want_pseudo=False):
     """-> (claimed [(arch, idx, class name, mnemonic, kinds)], unclaimed [(arch, class name, why)])"""
     from ppci.api import get_arch
     from ppci.arch.generic_instructions import ArtificialInstruction
-    claimed, unclaimed = [], []
+    claimed, unclaimed, pseudo = [], [], []
     for archname, modname in MODS.items():
         arch = get_arch(archname)
         for idx, cls in enumerate(arch.isa.instructions):
@@ -143,17 +146,23 @@ def discover():
                 continue
             if not getattr(cls, "syntax", None):
                 continue
-            if issubclass(cls, ArtificialInstruction) or not hasattr(cls, "tokens"):
-                unclaimed.append((archname, cls.__name__, "pseudo-instruction without an encoding of its own"))
-                continue
             mn = mnemonic_of(cls)
             mn = ALIAS.get(mn, mn)
             ks = kinds_of(cls)
+            if issubclass(cls, ArtificialInstruction) or not hasattr(cls, "tokens"):
+                if issubclass(cls, ArtificialInstruction) and (mn, ks) in PSEUDO_SPEC:
+                    pseudo.append((archname, idx, cls.__name__, mn, ks))
+                else:
+                    unclaimed.append((archname, cls.__name__, "pseudo-instruction expanding through render() with no "
+                                      "stated meaning here (label forms need relocations) / assembler directive"))
+                continue
             if (mn, ks) not in SPEC:
                 # a second class printing the same text as an earlier one is still compared with that text
                 unclaimed.append((archname, cls.__name__, f"no manual instruction stated for syntax '{mn}' {ks!r}"))
                 continue
             claimed.append((archname, idx, cls.__name__, mn, ks))
+    if want_pseudo:
+        return pseudo
     return claimed, unclaimed
 
 
@@ -295,3 +304,62 @@ class EncodeHarness(Harness):
         for fld, v in self.spec["fixed"].items():
             cs.append(f[fld] == v)
         return m, (sym_and(*cs) if cs else True)
+
+
+class PseudoHarness(EncodeHarness):
+    """builds a pseudo-instruction with symbolic operands, expands it through the real render() and encodes
+    every rendered instruction with the real encode()"""
+
+    def __init__(self, arch, idx, cls, mn, ks, wide=0):
+        self.arch, self.idx, self.cls, self.mn, self.ks = arch, idx, cls, mn, ks
+        self.spec = PSEUDO_SPEC[(mn, ks)]
+        self.wide = wide
+        self.params = dict(arch=arch, idx=idx, cls=cls, mn=mn, ks=ks, wide=wide)
+        self.name = f"{self.PREFIX}[{arch}:{cls}#{idx}:{mn}]"
+        lo, hi, _ = self.spec["imm"]
+        self.IMM_LO, self.IMM_HI = lo, hi
+
+    def operand_inputs(self, mk):
+        d = {}
+        for k, kd in enumerate(self.ks):
+            if kd == "r":
+                d[f"r{k}"] = mk.int(f"r{k}", 0, 31)
+            elif kd == "i":
+                d[f"i{k}"] = mk.int(f"i{k}", self.IMM_LO, self.IMM_HI)
+        return d
+
+    def expand(self, i):
+        """-> ("ok", [[bytes] per rendered instruction], printed, used, defined, printed after render)
+              | ("rejected", exc name)"""
+        from ppci.arch.riscv.registers import RiscvRegister
+        from ppci.arch.registers import Register
+        from ppci.arch.generic_instructions import ArtificialInstruction
+        cls = self.the_class()
+        args = []
+        for k, kd in enumerate(self.ks):
+            args.append(RiscvRegister(f"r{k}", num=i[f"r{k}"]) if kd == "r" else i[f"i{k}"])
+        ins = cls(*args)
+
+        def shown():
+            out = []
+            for a in cls.syntax.formal_arguments:
+                v = getattr(ins, a._name)
+                out.append(v.num if isinstance(v, Register) else v)
+            return out
+        printed = shown()
+        used = [r.num for r in ins.used_registers if type(r) is RiscvRegister]
+        defined = [r.num for r in ins.defined_registers if type(r) is RiscvRegister]
+        defined += [r.num for r in ins.clobbers if type(r) is RiscvRegister]
+        try:
+            seq = []
+            work = list(ins.render())
+            while work:
+                x = work.pop(0)
+                if isinstance(x, ArtificialInstruction):
+                    work = list(x.render()) + work
+                    continue
+                assert not x.relocations(), "rendered instruction needs a relocation"
+                seq.append(list(x.encode()))
+        except Exception as e:      # noqa
+            return ("rejected", type(e).__name__)
+        return ("ok", seq, printed, used, defined, shown())
